@@ -111,12 +111,14 @@ pub fn explore(cfg: &BfsConfig, m: &dyn BfsModel) -> BfsStats {
     st.states = 1;
     let mut frontier = vec![Entry { hist: vec![], enabled: s0.enabled }];
     let stop = AtomicBool::new(false);
+    let overflow = AtomicBool::new(false);
     for depth in 0..cfg.max_depth {
         if frontier.is_empty() {
             st.fixpoint = true;
             break;
         }
         let next_idx = AtomicUsize::new(0);
+        let cand_count = AtomicUsize::new(0);
         let results: Mutex<Vec<(Vec<Cand>, u64, BTreeMap<String, u64>, Vec<BfsViolation>, u64, Option<String>, Vec<Vec<String>>)>> = Mutex::new(Vec::new());
         let frontier_ref = &frontier;
         let seen_ref = &seen;
@@ -126,6 +128,10 @@ pub fn explore(cfg: &BfsConfig, m: &dyn BfsModel) -> BfsStats {
                 let next_idx = &next_idx;
                 let results = &results;
                 let stop = &stop;
+                let overflow = &overflow;
+                let cand_count = &cand_count;
+                let cand_cap = cfg.state_cap;
+                let deadline = start + cfg.wall_cap;
                 let focus = cfg.focus;
                 std::thread::Builder::new()
                     .stack_size(cfg.stack_mb << 20)
@@ -194,6 +200,13 @@ pub fn explore(cfg: &BfsConfig, m: &dyn BfsModel) -> BfsStats {
                                     }
                                     if !seen_ref.contains(&step.key) && local_seen.insert(step.key) {
                                         cands.push(Cand { key: step.key, hist: h.clone(), enabled: step.enabled });
+                                        // Memory and time are bounded inside the level as well.
+                                        let n = cand_count.fetch_add(1, Ordering::Relaxed);
+                                        if n > cand_cap || (n % 4096 == 0 && Instant::now() > deadline) {
+                                            overflow.store(true, Ordering::Relaxed);
+                                            stop.store(true, Ordering::Relaxed);
+                                            break 'outer;
+                                        }
                                     }
                                 }
                             }
@@ -224,6 +237,10 @@ pub fn explore(cfg: &BfsConfig, m: &dyn BfsModel) -> BfsStats {
         }
         st.transitions += level_trans;
         if st.machinery_error.is_some() {
+            break;
+        }
+        if overflow.load(Ordering::Relaxed) {
+            st.capped = Some(format!("state cap {} or wall-clock cap {:?} reached while expanding depth {}; depth {} was completed", cfg.state_cap, cfg.wall_cap, depth + 1, depth));
             break;
         }
         // Deterministic merge: smallest history wins per key.
